@@ -119,6 +119,7 @@ package httpgen
 //@   ensures err == nil ==> spec.AllOK_flatten(file.Messages)
 
 //@ func (g *Generator) generateOneofDiscriminatorFile(file *protogen.File) (err error)
+//@   modifies *
 //@   ensures err == nil ==> spec.AllOK_oneof(file.Messages)
 
 //@ func collectFileUnwrapFields(messages []*protogen.Message, global *GlobalUnwrapInfo) (err error)
@@ -134,6 +135,7 @@ package httpgen
 //@   loop 1 invariant forall k int :: 0 <= k && k < _i1 && files[k].Generate ==> spec.AllOK_unwrap(files[k].Messages)
 
 //@ func (g *Generator) generateFile(file *protogen.File) (err error)
+//@   modifies *
 //@   ensures enum: err == nil ==> spec.AllOK_enum(file.Messages)
 //@   ensures nullable: err == nil ==> spec.AllOK_nullable(file.Messages)
 //@   ensures emptyBehavior: err == nil ==> spec.AllOK_emptyBehavior(file.Messages)
@@ -143,6 +145,7 @@ package httpgen
 //@   ensures oneof: err == nil ==> spec.AllOK_oneof(file.Messages)
 
 //@ func (g *Generator) Generate() (err error)
+//@   modifies *
 //@   modifies g
 //@   ensures frame: g.plugin == old(g.plugin)
 //@   ensures unwrap: err == nil ==> (forall k int :: 0 <= k && k < len(g.plugin.Files) && g.plugin.Files[k].Generate ==> spec.AllOK_unwrap(g.plugin.Files[k].Messages))
@@ -211,6 +214,7 @@ package httpgen
 //@   decreases spec.depth(messages)
 
 //@ func collectOneofDiscriminatorMessages(messages []*protogen.Message, contexts *[]*OneofDiscriminatorContext)
+//@   modifies *
 //@   modifies contexts
 //@   decreases spec.depth(messages)
 
